@@ -532,7 +532,7 @@ def s9_command_table(ctx):
         if not info or info["kind"] != "bool":
             continue
         o = peel_var(info["on"])
-        if o[0] == "call" and o[1] in ("std::cmp::PartialEq::eq",):
+        if o[0] == "call" and (o[1] in ("std::cmp::PartialEq::eq",) or (o[1] or "").endswith("::eq_ignore_ascii_case")):
             lit = None
             for a in o[2]:
                 bs = const_bytes(a)
@@ -549,7 +549,7 @@ def s9_command_table(ctx):
             if bb not in reach(b, [0], blocked_edges=lambda e: (e.src, e.dst) == ge):
                 doms.append((lit, res))
         want = var.upper().encode()
-        good = len(doms) >= 1 and all(l == want for l, _ in doms)
+        good = len(doms) >= 1 and all(l.upper() == want for l, _ in doms)
         # equality must be the library's (str/Bytes) equality, not a crate-local helper
         lib = all(res and not res.startswith("net::") and not res.startswith("storage::") for _, res in doms)
         r.add(f, "Command::%s only behind name == %r" % (var, want.decode()), good and lib, where(b, bb), "" if good and lib else ("guards: %s" % [(l, rs) for l, rs in doms] if doms else "no literal equality test dominates this dispatch (custom comparison?)"))
